@@ -234,6 +234,26 @@ func init() {
 			}
 			return nameVal(v)
 		},
+		"Same": func(m *M, fn *ssa.Function, a []Value) Value {
+			x, y := m.resolveIface(m.force(a[0]).(Iface)), m.resolveIface(m.force(a[1]).(Iface))
+			if x.t == nil || y.t == nil {
+				return cBool(x.t == nil && y.t == nil)
+			}
+			if !types.Identical(x.t, y.t) {
+				return cBool(false)
+			}
+			if xs, ok := m.force(x.v).(Slice); ok {
+				ys := m.force(y.v).(Slice)
+				if xs.abs && ys.abs {
+					return cBool(xs.lenT == ys.lenT && xs.labT == ys.labT)
+				}
+				return m.valEq(xs, ys)
+			}
+			if !types.Comparable(x.t) {
+				return cBool(false)
+			}
+			return m.valEq(x.v, y.v)
+		},
 		"BytesEq": func(m *M, fn *ssa.Function, a []Value) Value { return bytesEq(m, m.force(a[0]).(Slice), m.force(a[1]).(Slice)) },
 		"StrEq":   func(m *M, fn *ssa.Function, a []Value) Value { return m.strEq(m.force(a[0]).(Str), m.force(a[1]).(Str)) },
 		"Bound": func(m *M, fn *ssa.Function, a []Value) Value {
@@ -367,6 +387,26 @@ func init() {
 		"strings.ToLower":                strFn1(func(a string) Value { return cStr(strings.ToLower(a)) }),
 		"strings.ToUpper":                strFn1(func(a string) Value { return cStr(strings.ToUpper(a)) }),
 		"strings.TrimSpace":              strFn1(func(a string) Value { return cStr(strings.TrimSpace(a)) }),
+		"strings.Join": func(m *M, fn *ssa.Function, a []Value) Value {
+			sl := m.force(a[0]).(Slice)
+			sep, ok := concStr(m, a[1])
+			if !ok {
+				panic(engineErr("strings.Join with symbolic separator"))
+			}
+			var parts []string
+			allConc := true
+			for _, e := range m.sliceElems(sl) {
+				s, ok := concStr(m, e)
+				if !ok {
+					allConc = false
+				}
+				parts = append(parts, s)
+			}
+			if allConc {
+				return cStr(strings.Join(parts, sep))
+			}
+			return m.atomStr(fmt.Sprintf("join#%d", m.seq("join")))
+		},
 		"strconv.Itoa":                   func(m *M, fn *ssa.Function, a []Value) Value { return itoa(m, a[0]) },
 		"internal/bytealg.IndexByteString": func(m *M, fn *ssa.Function, a []Value) Value { return indexByte(m, m.force(a[0]).(Str), a[1]) },
 		"internal/bytealg.IndexByte": func(m *M, fn *ssa.Function, a []Value) Value {
@@ -406,6 +446,14 @@ func init() {
 				return cI(0)
 			}
 			return nInt(Int{w: 64, sgn: true, t: fmt.Sprintf("(ite (bvult %s %s) (_ bv18446744073709551615 64) (ite (= %s %s) (_ bv0 64) (_ bv1 64)))", xv.term(), yv.term(), xv.term(), yv.term())})
+		},
+		"(*math/big.Int).BitLen": func(m *M, fn *ssa.Function, a []Value) Value {
+			// abstraction: the bit length is a function of the abstract value (its low 16 bits): every length 0..65535 occurs
+			v := bigVal(m, a[0])
+			if v.conc {
+				return cI(int(v.v & 0xFFFF))
+			}
+			return nInt(Int{w: 64, sgn: true, t: fmt.Sprintf("(bvand %s (_ bv65535 64))", v.t)})
 		},
 		"(*math/big.Int).String": func(m *M, fn *ssa.Function, a []Value) Value {
 			p := m.force(a[0]).(Ptr)
